@@ -35,14 +35,14 @@ func (s *Server) Definition(ctx context.Context, params *protocol.DefinitionPara
 
 	journal, _ := parser.Parse(doc)
 
-	target := findDefinitionTarget(journal, params.Position)
+	target := findDefinitionTarget(journal, newColumnMapper(doc), params.Position)
 	if target == nil || target.context == DefContextUnknown {
 		return nil, nil
 	}
 
-	resolved, primaryPath := s.resolvedWithPrimaryPath(params.TextDocument.URI)
+	resolved, primaryPath, mappers := s.resolvedWithPrimaryPath(params.TextDocument.URI, doc)
 
-	location := findDefinitionLocation(target, resolved, primaryPath, journal)
+	location := findDefinitionLocation(target, resolved, primaryPath, journal, mappers)
 	if location == nil {
 		return nil, nil
 	}
@@ -50,7 +50,11 @@ func (s *Server) Definition(ctx context.Context, params *protocol.DefinitionPara
 	return []protocol.Location{*location}, nil
 }
 
-func findDefinitionTarget(journal *ast.Journal, pos protocol.Position) *definitionTarget {
+// findDefinitionTarget finds the symbol under the cursor. mapper belongs to the text the
+// journal was parsed from.
+func findDefinitionTarget(journal *ast.Journal, mapper *columnMapper, pos protocol.Position) *definitionTarget {
+	pos = mapper.runePosition(pos)
+
 	for i := range journal.Transactions {
 		tx := &journal.Transactions[i]
 
@@ -61,7 +65,7 @@ func findDefinitionTarget(journal *ast.Journal, pos protocol.Position) *definiti
 				return &definitionTarget{
 					context:     DefContextPayee,
 					name:        payee,
-					symbolRange: astRangeToProtocol(payeeRange),
+					symbolRange: mapper.toProtocol(payeeRange),
 				}
 			}
 		}
@@ -74,13 +78,13 @@ func findDefinitionTarget(journal *ast.Journal, pos protocol.Position) *definiti
 				return &definitionTarget{
 					context:     DefContextAccount,
 					name:        p.Account.Name,
-					symbolRange: astRangeToProtocol(accountRange),
+					symbolRange: mapper.toProtocol(accountRange),
 				}
 			}
 
 			for _, c := range postingCommodities(p) {
 				if c.Symbol != "" && positionInRange(pos, c.Range) {
-					return commodityTarget(c.Symbol, c.Range)
+					return commodityTarget(c.Symbol, mapper.toProtocol(c.Range))
 				}
 			}
 		}
@@ -94,19 +98,19 @@ func findDefinitionTarget(journal *ast.Journal, pos protocol.Position) *definiti
 				return &definitionTarget{
 					context:     DefContextAccount,
 					name:        d.Account.Name,
-					symbolRange: astRangeToProtocol(accountRange),
+					symbolRange: mapper.toProtocol(accountRange),
 				}
 			}
 		case ast.CommodityDirective:
 			if rng := directiveCommodityRange(&d.Commodity); d.Commodity.Symbol != "" && positionInRange(pos, rng) {
-				return commodityTarget(d.Commodity.Symbol, rng)
+				return commodityTarget(d.Commodity.Symbol, mapper.toProtocol(rng))
 			}
 		case ast.PriceDirective:
 			if rng := directiveCommodityRange(&d.Commodity); d.Commodity.Symbol != "" && positionInRange(pos, rng) {
-				return commodityTarget(d.Commodity.Symbol, rng)
+				return commodityTarget(d.Commodity.Symbol, mapper.toProtocol(rng))
 			}
 			if c := &d.Price.Commodity; c.Symbol != "" && positionInRange(pos, c.Range) {
-				return commodityTarget(c.Symbol, c.Range)
+				return commodityTarget(c.Symbol, mapper.toProtocol(c.Range))
 			}
 		}
 	}
@@ -114,28 +118,28 @@ func findDefinitionTarget(journal *ast.Journal, pos protocol.Position) *definiti
 	return nil
 }
 
-func commodityTarget(symbol string, rng ast.Range) *definitionTarget {
+func commodityTarget(symbol string, rng *protocol.Range) *definitionTarget {
 	return &definitionTarget{
 		context:     DefContextCommodity,
 		name:        symbol,
-		symbolRange: astRangeToProtocol(rng),
+		symbolRange: rng,
 	}
 }
 
-func findDefinitionLocation(target *definitionTarget, resolved *include.ResolvedJournal, currentPath string, currentJournal *ast.Journal) *protocol.Location {
+func findDefinitionLocation(target *definitionTarget, resolved *include.ResolvedJournal, currentPath string, currentJournal *ast.Journal, mappers *fileMappers) *protocol.Location {
 	switch target.context {
 	case DefContextAccount:
-		return findAccountDefinitionResolved(target.name, resolved, currentPath, currentJournal)
+		return findAccountDefinitionResolved(target.name, resolved, currentPath, currentJournal, mappers)
 	case DefContextCommodity:
-		return findCommodityDefinitionResolved(target.name, resolved, currentPath, currentJournal)
+		return findCommodityDefinitionResolved(target.name, resolved, currentPath, currentJournal, mappers)
 	case DefContextPayee:
-		return findPayeeDefinitionResolved(target.name, resolved, currentPath, currentJournal)
+		return findPayeeDefinitionResolved(target.name, resolved, currentPath, currentJournal, mappers)
 	default:
 		return nil
 	}
 }
 
-func findAccountDefinitionResolved(name string, resolved *include.ResolvedJournal, currentPath string, currentJournal *ast.Journal) *protocol.Location {
+func findAccountDefinitionResolved(name string, resolved *include.ResolvedJournal, currentPath string, currentJournal *ast.Journal, mappers *fileMappers) *protocol.Location {
 	journals := allJournalsWithPaths(resolved, currentPath, currentJournal)
 
 	for _, filePath := range sortedJournalPaths(journals) {
@@ -145,17 +149,17 @@ func findAccountDefinitionResolved(name string, resolved *include.ResolvedJourna
 				if ad.Account.Name == name {
 					return &protocol.Location{
 						URI:   pathToURI(filePath),
-						Range: *astRangeToProtocol(ad.Range),
+						Range: *mappers.get(filePath).toProtocol(ad.Range),
 					}
 				}
 			}
 		}
 	}
 
-	return findFirstAccountUsageResolved(name, journals)
+	return findFirstAccountUsageResolved(name, journals, mappers)
 }
 
-func findFirstAccountUsageResolved(name string, journals map[string]*ast.Journal) *protocol.Location {
+func findFirstAccountUsageResolved(name string, journals map[string]*ast.Journal, mappers *fileMappers) *protocol.Location {
 	var earliest *protocol.Location
 	var earliestDate *ast.Date
 
@@ -170,7 +174,7 @@ func findFirstAccountUsageResolved(name string, journals map[string]*ast.Journal
 						earliestDate = &tx.Date
 						earliest = &protocol.Location{
 							URI:   pathToURI(filePath),
-							Range: *astRangeToProtocol(computeAccountRange(&p.Account)),
+							Range: *mappers.get(filePath).toProtocol(computeAccountRange(&p.Account)),
 						}
 					}
 				}
@@ -181,7 +185,7 @@ func findFirstAccountUsageResolved(name string, journals map[string]*ast.Journal
 	return earliest
 }
 
-func findCommodityDefinitionResolved(symbol string, resolved *include.ResolvedJournal, currentPath string, currentJournal *ast.Journal) *protocol.Location {
+func findCommodityDefinitionResolved(symbol string, resolved *include.ResolvedJournal, currentPath string, currentJournal *ast.Journal, mappers *fileMappers) *protocol.Location {
 	journals := allJournalsWithPaths(resolved, currentPath, currentJournal)
 
 	for _, filePath := range sortedJournalPaths(journals) {
@@ -191,17 +195,17 @@ func findCommodityDefinitionResolved(symbol string, resolved *include.ResolvedJo
 				if cd.Commodity.Symbol == symbol {
 					return &protocol.Location{
 						URI:   pathToURI(filePath),
-						Range: *astRangeToProtocol(cd.Range),
+						Range: *mappers.get(filePath).toProtocol(cd.Range),
 					}
 				}
 			}
 		}
 	}
 
-	return findFirstCommodityUsageResolved(symbol, journals)
+	return findFirstCommodityUsageResolved(symbol, journals, mappers)
 }
 
-func findFirstCommodityUsageResolved(symbol string, journals map[string]*ast.Journal) *protocol.Location {
+func findFirstCommodityUsageResolved(symbol string, journals map[string]*ast.Journal, mappers *fileMappers) *protocol.Location {
 	var earliest *protocol.Location
 	var earliestDate *ast.Date
 
@@ -216,7 +220,7 @@ func findFirstCommodityUsageResolved(symbol string, journals map[string]*ast.Jou
 						earliestDate = &tx.Date
 						earliest = &protocol.Location{
 							URI:   pathToURI(filePath),
-							Range: *astRangeToProtocol(p.Amount.Commodity.Range),
+							Range: *mappers.get(filePath).toProtocol(p.Amount.Commodity.Range),
 						}
 					}
 				}
@@ -227,7 +231,7 @@ func findFirstCommodityUsageResolved(symbol string, journals map[string]*ast.Jou
 	return earliest
 }
 
-func findPayeeDefinitionResolved(payee string, resolved *include.ResolvedJournal, currentPath string, currentJournal *ast.Journal) *protocol.Location {
+func findPayeeDefinitionResolved(payee string, resolved *include.ResolvedJournal, currentPath string, currentJournal *ast.Journal, mappers *fileMappers) *protocol.Location {
 	journals := allJournalsWithPaths(resolved, currentPath, currentJournal)
 
 	var earliest *protocol.Location
@@ -243,7 +247,7 @@ func findPayeeDefinitionResolved(payee string, resolved *include.ResolvedJournal
 					earliestDate = &tx.Date
 					earliest = &protocol.Location{
 						URI:   pathToURI(filePath),
-						Range: *astRangeToProtocol(tx.Range),
+						Range: *mappers.get(filePath).toProtocol(tx.Range),
 					}
 				}
 			}
